@@ -1,55 +1,26 @@
 package main
 
 // T1 facts for C02 (lean/Ibx/Gen/Dot.lean): the two trace-line format strings and their arguments, the order of
-// Deliver's MultiReader, how the DATA block is read, and the shape of the POP3 line loop (scanner limit, dot-prefix
-// test, line terminator).  Anything not recognised is emitted as `none` / `[]`, which no tie theorem accepts.
+// Deliver's MultiReader, how the DATA block reaches Deliver, and the shape of the POP3 line loop (scanner source and
+// limit, dot-prefix test, what is written per line).  Anything not recognised is emitted as `none` / `[]`, which no
+// tie theorem accepts.
+//
+// Nothing here depends on the name of a local, a parameter, a receiver or an unexported helper (k1kit.go): a value is
+// identified by where it comes from.  `strings.NewReader(returnPath)` is reported as "strings.NewReader(fmt.Sprintf#0)"
+// when `returnPath` is a local defined once by a fmt.Sprintf, whose format and canonical arguments are fact 0; the
+// body handed to Deliver is `bytes.NewBuffer($r.text.ReadDotBytes()#0).Bytes()` whatever the locals and the reading
+// helper are called; the functions that stream a message to a POP3 client are the helpers that the RETR and TOP
+// clauses of the TRANSACTION handler call and that build a bufio.Scanner.  A value computed before a loop and used in
+// it is `$outer(…)`: hoisting a reader out of the per-mailbox loop is NOT the same program.
 
 import (
 	"go/ast"
 	"go/token"
 	"strconv"
+	"strings"
 )
 
 func init() { extractors = append(extractors, extractDot) }
-
-// sprintfAssign: `<lhs> := fmt.Sprintf(<literal>, args…)` inside n; (format, argument sources).
-func sprintfAssign(n ast.Node, lhs string) (*string, []string) {
-	var fm *string
-	var args []string
-	count := 0
-	if n == nil || isNilNode(n) {
-		return nil, nil
-	}
-	ast.Inspect(n, func(x ast.Node) bool {
-		as, ok := x.(*ast.AssignStmt)
-		if !ok || len(as.Lhs) != 1 || len(as.Rhs) != 1 || src(as.Lhs[0]) != lhs {
-			return true
-		}
-		ce, ok := as.Rhs[0].(*ast.CallExpr)
-		if !ok || src(ce.Fun) != "fmt.Sprintf" || len(ce.Args) < 1 {
-			return true
-		}
-		lit, ok := ce.Args[0].(*ast.BasicLit)
-		if !ok || lit.Kind != token.STRING {
-			return true
-		}
-		s, err := strconv.Unquote(lit.Value)
-		if err != nil {
-			return true
-		}
-		count++
-		fm = &s
-		args = nil
-		for _, a := range ce.Args[1:] {
-			args = append(args, src(a))
-		}
-		return true
-	})
-	if count != 1 {
-		return nil, nil
-	}
-	return fm, args
-}
 
 // callArgs: argument sources of the unique call of `fun` inside n (nil if not exactly one).
 func callArgs(n ast.Node, fun string) ([]string, bool) {
@@ -89,54 +60,89 @@ func optStrList(l []string, ok bool) string {
 	return "some " + strList(l)
 }
 
-// hasPrefixLits: literals of `strings.HasPrefix(<subject>, <literal>)` calls inside n.
-func hasPrefixLits(n ast.Node, subject string) []string {
-	res := []string{}
-	if n == nil || isNilNode(n) {
-		return res
+// dotSprintf: x (through locals that are defined once) is fmt.Sprintf(<literal>, args…): format, canonical arguments,
+// and whether the value is computed outside a loop that uses it.
+func dotSprintf(e *k1Env, x ast.Expr) (fm *string, args []string, outer bool, ok bool) {
+	outer = strings.HasPrefix(e.canon(x), "$outer(")
+	ce, isCall := e.deref(x).(*ast.CallExpr)
+	if !isCall || !k1QualCall(ce, "fmt", "Sprintf") || len(ce.Args) < 1 {
+		return nil, nil, outer, false
 	}
-	ast.Inspect(n, func(x ast.Node) bool {
-		ce, ok := x.(*ast.CallExpr)
-		if ok && src(ce.Fun) == "strings.HasPrefix" && len(ce.Args) == 2 && src(ce.Args[0]) == subject {
-			if lit, ok := ce.Args[1].(*ast.BasicLit); ok && lit.Kind == token.STRING {
-				if s, err := strconv.Unquote(lit.Value); err == nil {
-					res = append(res, s)
-				}
-			}
+	s, isStr := k1Str(ce.Args[0])
+	if !isStr {
+		return nil, nil, outer, false
+	}
+	for _, a := range ce.Args[1:] {
+		args = append(args, e.canon(a))
+	}
+	return &s, args, outer, true
+}
+
+// dotUnique: the unique call inside n satisfying pred (nil when there is not exactly one)
+func dotUnique(n ast.Node, pred func(*ast.CallExpr) bool) *ast.CallExpr {
+	var res *ast.CallExpr
+	cnt := 0
+	for _, ce := range k1Calls(n) {
+		if pred(ce) {
+			cnt++
+			res = ce
 		}
-		return true
-	})
+	}
+	if cnt != 1 {
+		return nil
+	}
 	return res
 }
 
-// assignSources: right-hand sides of `<lhs> = …` (plain assignment) inside n.
-func assignSources(n ast.Node, lhs string) []string {
-	res := []string{}
-	if n == nil || isNilNode(n) {
-		return res
+func dotCanonArgs(e *k1Env, ce *ast.CallExpr) ([]string, bool) {
+	if ce == nil {
+		return nil, false
 	}
-	ast.Inspect(n, func(x ast.Node) bool {
-		as, ok := x.(*ast.AssignStmt)
-		if ok && as.Tok == token.ASSIGN && len(as.Lhs) == 1 && len(as.Rhs) == 1 && src(as.Lhs[0]) == lhs {
-			res = append(res, src(as.Rhs[0]))
-		}
-		return true
-	})
-	return res
+	res := []string{}
+	for _, a := range ce.Args {
+		res = append(res, e.canon(a))
+	}
+	return res, true
 }
 
 func extractDot() {
+	defer k1Recover("extractDot")
 	g := gen("Dot")
 	mf := parse("pkg/message/manager.go")
 	deliver := fn(mf, "StoreManager", "Deliver")
-	rp, rpArgs := sprintfAssign(deliver, "returnPath")
-	g.def("returnPathFmt", "Option (List Nat)", dotOptBytes(rp), "format of `returnPath := fmt.Sprintf(…)` in Deliver: "+optStr(rp))
-	g.def("returnPathArgs", "List String", strList(rpArgs), "its arguments")
-	rv, rvArgs := sprintfAssign(deliver, "recvd")
-	g.def("recvdFmt", "Option (List Nat)", dotOptBytes(rv), "format of `recvd := fmt.Sprintf(…)` in Deliver: "+optStr(rv))
-	g.def("recvdArgs", "List String", strList(rvArgs), "its arguments")
-	mr, ok := callArgs(deliver, "io.MultiReader")
-	g.def("multiReaderArgs", "Option (List String)", optStrList(mr, ok), "the readers concatenated into the stored source, in order")
+	mp := &k1Pkg{named: map[string][]*ast.FuncDecl{}}
+	var fmts [2]*string
+	var fargs [2][]string
+	var shape []string
+	shapeOK := false
+	if deliver != nil && deliver.Body != nil {
+		e := k1NewEnv(mp, deliver)
+		if mr := dotUnique(deliver.Body, func(ce *ast.CallExpr) bool { return k1QualCall(ce, "io", "MultiReader") }); mr != nil {
+			shapeOK = true
+			nf := 0
+			for _, a := range mr.Args {
+				in, isCall := k1Unparen(a).(*ast.CallExpr)
+				if isCall && k1QualCall(in, "strings", "NewReader") && len(in.Args) == 1 && nf < 2 {
+					if fm, as, outer, ok := dotSprintf(e, in.Args[0]); ok {
+						fmts[nf], fargs[nf] = fm, as
+						s := "fmt.Sprintf#" + strconv.Itoa(nf)
+						if outer {
+							s = "$outer(" + s + ")"
+						}
+						shape = append(shape, "strings.NewReader("+s+")")
+						nf++
+						continue
+					}
+				}
+				shape = append(shape, e.canon(a))
+			}
+		}
+	}
+	g.def("returnPathFmt", "Option (List Nat)", dotOptBytes(fmts[0]), "format of the first fmt.Sprintf that Deliver's MultiReader reads (fmt.Sprintf#0): "+optStr(fmts[0]))
+	g.def("returnPathArgs", "List String", strList(fargs[0]), "its arguments ($p<i> = i-th parameter of Deliver)")
+	g.def("recvdFmt", "Option (List Nat)", dotOptBytes(fmts[1]), "format of the second one (fmt.Sprintf#1): "+optStr(fmts[1]))
+	g.def("recvdArgs", "List String", strList(fargs[1]), "its arguments")
+	g.def("multiReaderArgs", "Option (List String)", optStrList(shape, shapeOK), "the readers concatenated into the stored source, in order")
 	// the constant recvdTimeFmt
 	var tf *string
 	if mf != nil {
@@ -159,52 +165,158 @@ func extractDot() {
 			}
 		}
 	}
-	g.def("recvdTimeFmt", "Option String", optStr(tf), "time layout of the Received timestamp (rendered in UTC: fixed width)")
+	g.def("recvdTimeFmt", "Option String", optStr(tf), "time layout of the Received timestamp (package-level constant recvdTimeFmt; rendered in UTC: fixed width)")
 
-	sf := parse("pkg/server/smtp/handler.go")
-	dh := fn(sf, "Session", "dataHandler")
-	rh, rhArgs := sprintfAssign(dh, "recvdHeader")
-	g.def("recvdHeaderFmt", "Option (List Nat)", dotOptBytes(rh), "format of `recvdHeader := fmt.Sprintf(…)` in dataHandler: "+optStr(rh))
-	g.def("recvdHeaderArgs", "List String", strList(rhArgs), "its arguments")
-	da, ok := callArgs(dh, "s.manager.Deliver")
-	g.def("deliverArgs", "Option (List String)", optStrList(da, ok), "what dataHandler passes to Deliver")
-	md := assignSources(dh, "mailData")
-	md2 := []string{}
-	if dh != nil {
-		ast.Inspect(dh, func(x ast.Node) bool {
-			as, ok := x.(*ast.AssignStmt)
-			if ok && as.Tok == token.DEFINE && len(as.Lhs) == 1 && src(as.Lhs[0]) == "mailData" {
-				md2 = append(md2, src(as.Rhs[0]))
+	// ---- SMTP: what the DATA handler hands to Deliver
+	sp := k1LoadPkg("pkg/server/smtp")
+	roles := smtpFindRoles(sp)
+	var rh *string
+	var rhArgs []string
+	var da []string
+	daOK := false
+	if roles.data != nil {
+		e := k1NewEnv(sp, roles.data)
+		if dc := dotUnique(roles.data.Body, func(ce *ast.CallExpr) bool { return k1SelCall(ce, "Deliver") }); dc != nil {
+			daOK = true
+			for _, a := range dc.Args {
+				if fm, as, _, ok := dotSprintf(e, a); ok && rh == nil {
+					rh, rhArgs = fm, as
+					da = append(da, "fmt.Sprintf#hdr")
+					continue
+				}
+				da = append(da, e.canon(a))
 			}
-			return true
-		})
+		}
 	}
-	g.def("mailDataDefs", "List String", strList(append(md, md2...)), "every definition of mailData in dataHandler")
-	rdb := fn(sf, "Session", "readDataBlock")
-	_, reads := callArgs(rdb, "s.text.ReadDotBytes")
-	g.def("readsDotBytes", "Bool", map[bool]string{true: "true", false: "false"}[reads], "readDataBlock calls s.text.ReadDotBytes() exactly once")
+	g.def("recvdHeaderFmt", "Option (List Nat)", dotOptBytes(rh), "format of the fmt.Sprintf the DATA handler passes to Deliver (fmt.Sprintf#hdr): "+optStr(rh))
+	g.def("recvdHeaderArgs", "List String", strList(rhArgs), "its arguments ($r = the session)")
+	g.def("deliverArgs", "Option (List String)", optStrList(da, daOK), "what the DATA handler passes to Deliver, each argument traced to where it comes from (locals and the block-reading helper looked through)")
 
-	pf := parse("pkg/server/pop3/handler.go")
-	for _, name := range []string{"sendMessage", "sendMessageTop"} {
-		f := fn(pf, "Session", name)
-		ba, ok := callArgs(f, "scanner.Buffer")
-		g.def(name+"Buffer", "Option (List String)", optStrList(ba, ok), "arguments of scanner.Buffer in "+name+" (none = default 64 KiB token limit, or not recognised)")
+	// ---- POP3: the line loops behind RETR and TOP
+	pp := k1LoadPkg("pkg/server/pop3")
+	d := k1FindDispatch(pp)
+	var psend *ast.FuncDecl
+	for _, fd := range pp.funcs {
+		if fd.Recv != nil && !k1Exported(fd.Name.Name) && dotUnique(fd.Body, func(ce *ast.CallExpr) bool { return k1QualCall(ce, "fmt", "Fprint") }) != nil && psend == nil {
+			psend = fd
+		}
+	}
+	var trans *k1Switch
+	if d != nil && d.handlers["TRANSACTION"] != nil {
+		trans = k1TopSwitch(d.handlerEnv(pp, "TRANSACTION"), d.handlers["TRANSACTION"].Body)
+	}
+	for _, pair := range [][2]string{{"sendMessage", "RETR"}, {"sendMessageTop", "TOP"}} {
+		name, verb := pair[0], pair[1]
+		// the helper(s) of the clause that build a scanner
+		var f *ast.FuncDecl
+		nf := 0
+		if trans != nil {
+			if cc := trans.clause(verb); cc != nil {
+				for _, st := range cc.Body {
+					for _, ce := range k1Calls(st) {
+						if h := pp.resolve(ce); h != nil && len(dotScannerCalls(h)) > 0 {
+							f = h
+							nf++
+						}
+					}
+				}
+			}
+		}
+		if nf != 1 {
+			f = nil
+		}
+		var ba, sc, sent []string
+		baOK, scOK, hasSplit := false, false, false
+		dots := []string{}
+		rewrites := []string{}
+		if f != nil {
+			e := k1NewEnv(pp, f)
+			if ns := dotScannerCalls(f); len(ns) == 1 {
+				sc, scOK = dotCanonArgs(e, ns[0])
+				scanner := e.canon(ns[0])
+				isScanner := func(ce *ast.CallExpr, m string) bool {
+					sel, ok := ce.Fun.(*ast.SelectorExpr)
+					return ok && sel.Sel.Name == m && e.canon(sel.X) == scanner
+				}
+				ba, baOK = dotCanonArgs(e, dotUnique(f.Body, func(ce *ast.CallExpr) bool { return isScanner(ce, "Buffer") }))
+				for _, ce := range k1Calls(f.Body) {
+					if isScanner(ce, "Split") {
+						hasSplit = true
+					}
+				}
+				// the line variable: first argument of strings.HasPrefix(<line>, <literal>)
+				var line *ast.Object
+				for _, ce := range k1Calls(f.Body) {
+					if k1QualCall(ce, "strings", "HasPrefix") && len(ce.Args) == 2 {
+						if lit, ok := k1Str(ce.Args[1]); ok {
+							dots = append(dots, lit)
+							if id, ok := k1Unparen(ce.Args[0]).(*ast.Ident); ok && id.Obj != nil {
+								line = id.Obj
+							}
+						}
+					}
+				}
+				if line != nil {
+					// where the line comes from, then every later assignment to it
+					if ds := e.defs[line]; len(ds) > 0 && ds[0].rhs != nil {
+						rewrites = append(rewrites, "$line := "+e.canon(ds[0].rhs))
+						e.override[line] = "$line"
+						for _, dd := range ds[1:] {
+							if dd.rhs != nil {
+								rewrites = append(rewrites, "$line = "+e.canon(dd.rhs))
+							}
+						}
+					}
+					e.override[line] = "$line"
+				}
+				// what the scan loop writes
+				ast.Inspect(f.Body, func(n ast.Node) bool {
+					fs, ok := n.(*ast.ForStmt)
+					if !ok || fs.Cond == nil {
+						return true
+					}
+					if cc, ok := k1Unparen(fs.Cond).(*ast.CallExpr); !ok || !isScanner(cc, "Scan") {
+						return true
+					}
+					for _, ce := range k1Calls(fs.Body) {
+						if h := pp.resolve(ce); h != nil && h == psend && len(ce.Args) == 1 {
+							sent = append(sent, e.canon(ce.Args[0]))
+						}
+					}
+					return true
+				})
+			}
+		}
+		g.def(name+"Buffer", "Option (List String)", optStrList(ba, baOK), "arguments of <scanner>.Buffer in the helper behind "+verb+" (none = default 64 KiB token limit, or not recognised); $p = a parameter of the helper")
 		g.def(name+"DotTest", "List (List Nat)", func() string {
 			p := []string{}
-			for _, s := range hasPrefixLits(f, "line") {
+			for _, s := range dots {
 				p = append(p, byteList(s))
 			}
 			return "[" + joinComma(p) + "]"
-		}(), "literals of strings.HasPrefix(line, …) in "+name)
-		g.def(name+"LineRewrites", "List String", strList(assignSources(f, "line")), "every `line = …` in "+name)
-		sc, ok := callArgs(f, "bufio.NewScanner")
-		g.def(name+"Scanner", "Option (List String)", optStrList(sc, ok), "argument of bufio.NewScanner in "+name+" (no Split call = ScanLines)")
-		_, hasSplit := callArgs(f, "scanner.Split")
-		g.def(name+"HasSplit", "Bool", map[bool]string{true: "true", false: "false"}[hasSplit], "a scanner.Split call would replace ScanLines")
+		}(), "literals of strings.HasPrefix(<line>, …) in the helper behind "+verb)
+		g.def(name+"LineRewrites", "List String", strList(rewrites), "where <line> comes from and every later assignment to it")
+		g.def(name+"LoopSends", "List String", strList(sent), "what the scan loop hands to the reply helper")
+		g.def(name+"Scanner", "Option (List String)", optStrList(sc, scOK), "argument of bufio.NewScanner in the helper behind "+verb+" (no Split call = ScanLines)")
+		g.def(name+"HasSplit", "Bool", map[bool]string{true: "true", false: "false"}[hasSplit], "a <scanner>.Split call would replace ScanLines")
 	}
-	snd := fn(pf, "Session", "send")
-	sa, ok := callArgs(snd, "fmt.Fprint")
-	g.def("pop3SendArgs", "Option (List String)", optStrList(sa, ok), "what POP3 send writes for a line")
+	var sa []string
+	saOK := false
+	if psend != nil {
+		e := k1NewEnv(pp, psend)
+		sa, saOK = dotCanonArgs(e, dotUnique(psend.Body, func(ce *ast.CallExpr) bool { return k1QualCall(ce, "fmt", "Fprint") }))
+	}
+	g.def("pop3SendArgs", "Option (List String)", optStrList(sa, saOK), "what the POP3 reply helper (the unexported method that calls fmt.Fprint) writes for a line")
+}
+
+func dotScannerCalls(fd *ast.FuncDecl) []*ast.CallExpr {
+	var res []*ast.CallExpr
+	for _, ce := range k1Calls(fd.Body) {
+		if k1QualCall(ce, "bufio", "NewScanner") {
+			res = append(res, ce)
+		}
+	}
+	return res
 }
 
 func joinComma(p []string) string {
